@@ -1242,12 +1242,11 @@ impl<'src: 'ast, 'ast> Parser<'src, 'ast> {
             return self.alloc(Expr::String { parts: StringParts::Static(s), span });
         }
 
+        // A literal that contained an escape arrives unescaped in a buffer of its own; its
+        // placeholders are interpolated like those of any other literal.
         let template: &'ast str = match &content {
             ArenaCow::Borrowed(s) => s,
-            ArenaCow::Owned(..) => {
-                let s = self.alloc_str(content);
-                return self.alloc(Expr::String { parts: StringParts::Static(s), span });
-            }
+            ArenaCow::Owned(..) => self.alloc_str(content),
         };
 
         let segments = self.parse_template_segments(template);
